@@ -12,19 +12,22 @@ namespace {
 
 enum OpCode { O_CREATE = 1, O_CREATE_CREF, O_BULK, O_PARSE, O_ADD_ARR, O_ADD_OBJ, O_ADD_REF_ARR, O_ADD_REF_OBJ, O_HELPER, O_INSERT,
               O_DETACH_PTR, O_DETACH_IDX, O_DETACH_KEY, O_REPLACE_PTR, O_REPLACE_IDX, O_REPLACE_KEY, O_SETNUM, O_SETSTR, O_SETBOOL,
-              O_DUP, O_DELETE, O_SORT, O_UTIL, O_BUILD_OBJ };
+              O_DUP, O_DELETE, O_SORT, O_UTIL, O_BUILD_OBJ, O_PARSE_BAD };
 struct Op { int8_t code = 0, a = 0, b = 0, c = 0, d = 0; };
 typedef std::vector<Op> Hist;
 
-const char* const KEYS[] = { "a", "A", "b", "B", "c", "" };
+const char* const KEYS[] = { "a", "A", "b", "B", "_", "" };   // '_' lies between 'Z' and 'a': exposes wrong case folding
 const char* const PARSE_TEXTS[] = { "[1,2,3]", "{\"a\":1,\"A\":2,\"b\":3}", "[[1],{\"a\":[]}]", "{\"b\":1,\"a\":2}", "{\"a\":1,\"c\":2,\"b\":3}", "\"str\"", "[{\"a\":1,\"a\":2}]", "{\"k\":{\"b\":1,\"a\":2},\"B\":[]}" };
 const int NPARSE = sizeof PARSE_TEXTS / sizeof *PARSE_TEXTS;
+// malformed texts: every one must be rejected, and the rejection must release everything exactly once
+const char* const BAD_TEXTS[] = { "{\"name\" 1}", "{\"a\":1,\"name\"}", "{\"name\"", "[\"\\uDE00\"]", "[\"x\\uD800y\"]", "[\"\\x41\"]", "[1,", "{\"a\":1,", "[1 2]", "{\"a\":[1,{\"b\":\"c\"},tru]}", "\"abc", "[[\"a\",\"b\"],{\"k\":\"v\"},nul]", "{\"k\":\"\\u12\"}", "{\"k\":\"v\",\"\\uD800\\u0041\":1}", "[\"ok\",\"bad\\q\"]", "{\"a\":{\"b\":{\"c\":[\"d\",}}}" };
+const int NBAD = sizeof BAD_TEXTS / sizeof *BAD_TEXTS;
 
 std::string op_text(const Op& o) {
     static const char* nm[] = { "?", "Create", "CreateContainerReference", "BulkArray", "Parse", "AddItemToArray", "AddItemToObject", "AddItemReferenceToArray", "AddItemReferenceToObject", "AddXToObject", "InsertItemInArray",
                                 "DetachItemViaPointer", "Detach/DeleteItemFromArray", "Detach/DeleteItemFromObject", "ReplaceItemViaPointer", "ReplaceItemInArray", "ReplaceItemInObject", "SetNumber", "SetValuestring", "SetBoolValue",
-                                "Duplicate", "Delete", "SortObject", "UtilsCall", "BuildObject" };
-    char b[128]; snprintf(b, sizeof b, "%s(%d,%d,%d,%d)", o.code > 0 && o.code <= O_BUILD_OBJ ? nm[o.code] : "?", o.a, o.b, o.c, o.d); return b;
+                                "Duplicate", "Delete", "SortObject", "UtilsCall", "BuildObject", "ParseMalformed" };
+    char b[128]; snprintf(b, sizeof b, "%s(%d,%d,%d,%d)", o.code > 0 && o.code <= O_PARSE_BAD ? nm[o.code] : "?", o.a, o.b, o.c, o.d); return b;
 }
 std::string hist_bytes(const Hist& h) { std::string s; for (auto& o : h) { s += (char)o.code; s += (char)o.a; s += (char)o.b; s += (char)o.c; s += (char)o.d; } return s; }
 Hist hist_from(const std::string& s) { Hist h; for (size_t i = 0; i + 4 < s.size() + 0 && i + 5 <= s.size(); i += 5) { Op o; o.code = s[i]; o.a = s[i + 1]; o.b = s[i + 2]; o.c = s[i + 3]; o.d = s[i + 4]; h.push_back(o); } return h; }
@@ -34,7 +37,7 @@ struct Lits {   // borrowed memory handed to the library lives in read-only page
     GuardMap gm; const char* key[6]; const char* lit_s; const char* lit_long; const char* lit_empty; const char* lit_r; const char* lit_ref;
     void init() {
         gm.create(4096);
-        std::string blob; size_t off[12]; const char* items[] = { "a", "A", "b", "B", "c", "", "s", "longer string", "", "r", "borrowed literal" };
+        std::string blob; size_t off[12]; const char* items[] = { "a", "A", "b", "B", "_", "", "s", "longer string", "", "r", "borrowed literal" };
         for (int i = 0; i < 11; i++) { off[i] = blob.size(); blob += items[i]; blob.push_back('\0'); }
         const uint8_t* ro; gm.place_begin(blob.data(), blob.size(), &ro);
         for (int i = 0; i < 6; i++) key[i] = (const char*)ro + off[i];
@@ -116,6 +119,12 @@ bool Exec::apply(const Op& o) {
         if (!r || !S_parse((const uint8_t*)PARSE_TEXTS[o.a], strlen(PARSE_TEXTS[o.a]), v)) { fail("model:parse-failed", "cJSON_Parse returned NULL for a valid text"); return true; }
         MN* m = model_from_rv(w, v); if (!bind_real(m, r)) fail("model:parse-shape", "parsed tree has a different shape than the text");
         add_root(m); return true;
+    }
+    case O_PARSE_BAD: {
+        if (o.a < 0 || o.a >= NBAD) return false; const char* t = BAD_TEXTS[o.a]; const char* end = nullptr;
+        cJSON* r = o.b == 0 ? LIB(cJSON_Parse(t)) : o.b == 1 ? LIB(cJSON_ParseWithLength(t, strlen(t))) : LIB(cJSON_ParseWithOpts(t, &end, 1));
+        if (r) { fail("model:malformed-text-parsed", std::string("malformed text parsed: ") + t); LIBV(cJSON_Delete(r)); }
+        return true;
     }
     case O_BUILD_OBJ: {   // object with members keyed by the digits of o.a in base 6 (o.b members), values 0,1,2.. ; used for the sort start states
         cJSON* r = LIB(cJSON_CreateObject()); MN* m = w.mk(); m->kind = cJSON_Object; m->real = r; int code = (uint8_t)o.a | ((uint8_t)o.c << 8);
